@@ -104,6 +104,10 @@ type Failure struct {
 	Events   []ReplayEvent `json:"events"`
 	Path     string        `json:"path"`
 	Schedule []int         `json:"schedule,omitempty"`
+	// Stress: the counterexample needs a goroutine switch at an atomic operation
+	// of lock-free code; the native replay runs the harness threads freely and
+	// repeats the run until the failure shows (or gives up).
+	Stress bool `json:"stress,omitempty"`
 }
 
 func (f *Failure) Key() string { return f.Harness + "|" + f.Kind + "|" + f.Label }
@@ -1085,6 +1089,7 @@ func (i *interpreter) fail(kind, label, stack string) {
 	}
 	f := &Failure{Harness: ps.ex.entry.Name(), Kind: kind, Label: label, Stack: stack, Path: ps.pathString()}
 	f.Events = append([]ReplayEvent{}, ps.events...)
+	f.Stress = ps.sched != nil && ps.sched.preemptAtAtomics
 	ps.failure = f
 }
 
